@@ -20,7 +20,7 @@ def demo(tag):
     if not os.path.exists(src):
         return None
     exe = "/tmp/seed_demo_%d" % os.getpid()
-    r = sh("g++ -std=c++11 -O1 -I%s/include -I%s/external/tl -I/usr/include/eigen3 %s -o %s" % (REPO, REPO, src, exe))
+    r = sh("g++ -std=c++11 -O1 -pthread -I%s/include -I%s/external/tl -I/usr/include/eigen3 %s -o %s" % (REPO, REPO, src, exe))
     if r.returncode != 0:
         print("demo does not compile (%s):\n%s" % (tag, r.stdout[-1500:]))
         return None
